@@ -23,6 +23,21 @@ var solvers = []solverSpec{
 	{"cvc5-1.0", []string{"cvc5", "--lang=smt2", "--full-saturate-quant"}},
 }
 
+// buildRelaxed drops every quantified assertion (axioms, invariants, frame conditions): a model of the rest is only a
+// candidate counterexample and counts for nothing until it has been replayed on the real code.
+func (o *Obligation) buildRelaxed() string {
+	q := o.buildQuery(true)
+	var b strings.Builder
+	for _, ln := range strings.Split(q, "\n") {
+		if strings.HasPrefix(ln, "(assert ") && strings.Contains(ln, "(forall ") && !strings.HasPrefix(ln, "(assert (not ") {
+			continue
+		}
+		b.WriteString(ln)
+		b.WriteString("\n")
+	}
+	return b.String()
+}
+
 func (o *Obligation) buildQuery(models bool) string {
 	c := o.Ctx
 	var b strings.Builder
@@ -191,6 +206,15 @@ func (o *Obligation) finish(want string, scratch string) {
 			o.Status = "ok-unknown"
 		}
 		return
+	}
+	if o.Status == "unknown" || o.Status == "timeout" {
+		file := filepath.Join(scratch, sanitize(o.Name)+".relaxed.smt2")
+		os.WriteFile(file, []byte(o.buildRelaxed()), 0o644)
+		defer os.Remove(file)
+		r := runSolver(context.Background(), solvers[0], file, 5*time.Second)
+		if r.status == "sat" {
+			o.Model = "candidate model (quantified assumptions dropped; not a counterexample until replayed):\n" + r.out
+		}
 	}
 	if o.Status == "sat" {
 		// get a model from the solver that answered
